@@ -525,7 +525,7 @@ func c11one(c *Ctx, cas c11case) {
 }
 
 func c11(c *Ctx) {
-	c.Rule = "decoders: bgzf.NewReader/Read/Seek/HasEOF, bam.NewReader/Read under the three Omit modes (mutations applied to the uncompressed BAM stream, re-wrapped in valid BGZF), Header.UnmarshalBinary, Header.UnmarshalText/NewHeader, Record.UnmarshalSAM/UnmarshalText, sam.Reader, ParseAux, ParseCigar, bam.ReadIndex, tabix.ReadFrom, csi.ReadFrom, fai.ReadFrom, fai.NewIndex, cram Reader/Container/Block.Value. Inputs: every single-site mutation of every seed (truncate at every length; each byte -> {0,1,0x7f,0x80,0xff,b+1,b-1}; every 16- and 32-bit little-endian field position -> {0,1,2,3,-1,max,min,len-1,len+1,65536}; delete / duplicate each byte), every string of length <= 5 (thorough 7) over each text format's punctuation alphabet (aux 'X:Bc,1-Z', cigar '19MB*=', header '@HDSQ\\t:VN1'), digit runs of every length 1..24 in every numeric position of the text formats, and CRAM files assembled from parameter products with valid checksums. Every value returned without error goes to the library's own consumers (String/MarshalSAM/End/Bin/Len, Cigar methods, Aux.Value/String, Header.Marshal*/Clone, bam.Writer.Write, Index.Add, Chunks/ReferenceStats/WriteIndex, fai File reads). Oracle: returns within 60 s, no panic, no fatal error; inputs that exhaust the 1.5 GiB worker memory limit are counted, not judged. Non-trivial: every mutated input (all differ from the seed)."
+	c.Rule = "decoders: bgzf.NewReader/Read/Seek/HasEOF, bam.NewReader/Read under the three Omit modes (mutations applied to the uncompressed BAM stream, re-wrapped in valid BGZF), Header.UnmarshalBinary, Header.UnmarshalText/NewHeader, Record.UnmarshalSAM/UnmarshalText, sam.Reader, ParseAux, ParseCigar, bam.ReadIndex, tabix.ReadFrom, csi.ReadFrom, fai.ReadFrom, fai.NewIndex, cram Reader/Container/Block.Value. Inputs: every single-site mutation of every seed (truncate at every length; each byte -> {0,1,0x7f,0x80,0xff,b+1,b-1}; every 16- and 32-bit little-endian field position -> {0,1,2,3,-1,max,min,len-1,len+1,65536}; delete / duplicate each byte), every string of length <= 5 (thorough 7) over each text format's punctuation alphabet (aux 'X:Bc,1-Z', cigar '19MB*=', header '@HDSQ\\t:VN1'), digit runs of every length 1..24 in every numeric position of the text formats, and CRAM files assembled from parameter products with valid checksums. Every value returned without error goes to the library's own consumers (String/MarshalSAM/End/Bin/Len, Cigar methods, Aux.Value/String, Header.Marshal*/Clone, bam.Writer.Write, Index.Add, Chunks/ReferenceStats/WriteIndex, fai File reads). Oracle: returns within 60 s, no panic, no fatal error; inputs that exhaust the 768 MiB worker memory limit are counted, not judged. Non-trivial: every mutated input (all differ from the seed)."
 	if c.Replay != nil {
 		var cas c11case
 		if err := json.Unmarshal(c.Replay, &cas); err != nil {
@@ -596,7 +596,7 @@ func c11(c *Ctx) {
 		ics[i] = cases[i]
 		per[cases[i].Dec]++
 	}
-	runIsolated(c, "c11", ics, func(i int) string { return cases[i].Dec }, 1536)
+	runIsolated(c, "c11", ics, func(i int) string { return cases[i].Dec }, 768)
 	c.NontrivialN(int64(len(cases)))
 	for k, v := range per {
 		c.AddExtra("inputs "+k, v)
